@@ -226,18 +226,27 @@ def check_table(m, phase, fe, cfg, report):
         report("table-not-sorted", "tabulated temperatures are not strictly increasing",
                dict(T=T.tolist()[:20]))
     # ---- every tabulated point --------------------------------------------------------
-    beyond_min, beyond_other, worst = [], [], dict(grad=0.0, field=0.0, veff=0.0)
+    beyond_min, beyond_other, beyond_trans = [], [], []
+    worst = dict(grad=0.0, field=0.0, veff=0.0)
     for Ti, row in zip(T, tab):
         x, v = row[:-1], row[-1]
         H = m.hess(x, Ti)
         emin = float(np.linalg.eigvalsh(H)[0])
         n += 1
         if not (lo_exist <= Ti <= hi_exist):
-            # the phase does not exist here: what has been tabulated instead?
-            (beyond_min if emin > 0 else beyond_other).append((float(Ti), x.tolist(), emin))
+            # the traced phase does not exist here: what has been tabulated instead?
+            rec = (float(Ti), x.tolist(), emin)
+            if emin <= 0:
+                beyond_other.append(rec)            # a saddle / maximum / non-minimum
+            else:
+                g = m.grad(x, Ti)
+                step = float(np.linalg.norm(np.linalg.solve(H, g)))
+                tolx = (100 * rTol + 1e-7) * fs + 2 * (1.5e-8 * abs(v)) / emin
+                # genuine minimum of ANOTHER phase, or a point in transit to it
+                (beyond_min if step <= tolx else beyond_trans).append(rec)
             continue
         if emin <= eig_floor:
-            report("tabulates-non-minimum",
+            report("tabulated-non-minimum",
                    "tabulated point T=%.10g fields=%s has smallest exact Hessian eigenvalue "
                    "%.4g <= 0" % (Ti, x.tolist(), emin), dict(T=float(Ti), x=x.tolist()))
             continue
@@ -277,20 +286,29 @@ def check_table(m, phase, fe, cfg, report):
                    (v, Ti, vex), dict(T=float(Ti), x=x.tolist(), v=float(v)))
     if beyond_other:
         Ti, x, emin = beyond_other[len(beyond_other) // 2]
-        report("tabulates-non-minimum",
+        report("tabulated-non-minimum",
                "%d tabulated points lie outside the range (%.8g, %.8g) where phase %s is a "
-               "minimum and are not minima, e.g. T=%.10g fields=%s smallest eigenvalue %.4g"
-               % (len(beyond_other), ph.Tlo, ph.Thi, phase, Ti, x, emin),
-               dict(T=Ti, x=x, count=len(beyond_other)))
+               "minimum and are not minima of anything, e.g. T=%.10g fields=%s smallest exact "
+               "Hessian eigenvalue %.4g" % (len(beyond_other), ph.Tlo, ph.Thi, phase, Ti, x,
+                                            emin), dict(T=Ti, x=x, count=len(beyond_other)))
     if beyond_min:
+        # genuine minima of another phase beyond a spinodal of the traced one: the tracer
+        # stepped over the spinodal and went on (points in transit belong to the same event)
         Ti, x, emin = beyond_min[len(beyond_min) // 2]
         report("trace-hops-phase-at-spinodal",
-               "%d tabulated points lie beyond the spinodal of phase %s (exists for %.8g < T "
-               "< %.8g) with positive curvature, e.g. T=%.10g fields=%s: the tracer stepped "
-               "over the spinodal onto another phase without flagging the end"
-               % (len(beyond_min), phase, ph.Tlo, ph.Thi, Ti, x),
+               "%d tabulated points lie beyond the spinodal of phase %s (a minimum only for "
+               "%.8g < T < %.8g) and are genuine minima of ANOTHER phase, e.g. T=%.10g "
+               "fields=%s: the tracer stepped over the spinodal and continued without "
+               "flagging the end" % (len(beyond_min), phase, ph.Tlo, ph.Thi, Ti, x),
                dict(T=Ti, x=x, count=len(beyond_min)))
-    hopped = bool(beyond_min or beyond_other)
+    elif beyond_trans:
+        Ti, x, emin = beyond_trans[len(beyond_trans) // 2]
+        report("tabulated-beyond-spinodal",
+               "%d tabulated points lie outside the range (%.8g, %.8g) where phase %s exists "
+               "and are not critical points, e.g. T=%.10g fields=%s" % (
+                   len(beyond_trans), ph.Tlo, ph.Thi, phase, Ti, x),
+               dict(T=Ti, x=x, count=len(beyond_trans)))
+    hopped = bool(beyond_min or beyond_other or beyond_trans)
     if hopped:
         # points of the other phase inside the slack zone belong to the same event
         report.drop_near(ph.Tlo, ph.Thi, 0.01 * Ts)
@@ -391,6 +409,35 @@ def check_table(m, phase, fe, cfg, report):
     return n, worst
 
 
+class CaseTimeout(Exception):
+    pass
+
+
+class time_limit:
+    """the tracer's loops are Python loops: a SIGALRM exception interrupts a trace that
+    does not terminate (normal traces take 0.05 - 3 s)"""
+
+    def __init__(self, seconds):
+        self.seconds = seconds
+
+    def __enter__(self):
+        import signal
+
+        def handler(signum, frame):
+            raise CaseTimeout()
+        self.old = signal.signal(signal.SIGALRM, handler)
+        signal.setitimer(signal.ITIMER_REAL, self.seconds)
+
+    def __exit__(self, *a):
+        import signal
+        signal.setitimer(signal.ITIMER_REAL, 0)
+        signal.signal(signal.SIGALRM, self.old)
+        return False
+
+
+LIMIT = 60.0
+
+
 def _d4(f, t, h):
     """fourth derivative by central differences"""
     return (f(t - 2 * h) - 4 * f(t - h) + 6 * f(t) - 4 * f(t + h) + f(t + 2 * h)) / h ** 4
@@ -410,8 +457,12 @@ def run_trace_case(ctx, cfg, tag):
             (abs(f[2]["T"] - lo) < w or abs(f[2]["T"] - hi) < w))]
     report.drop_near = drop_near
     try:
-        fe = trace(m, cfg["phase"], cfg["Tstart"], cfg["TMin"], cfg["TMax"], cfg["dT"],
-                   cfg["rTol"], cfg["paranoid"])
+        with time_limit(LIMIT):
+            fe = trace(m, cfg["phase"], cfg["Tstart"], cfg["TMin"], cfg["TMax"], cfg["dT"],
+                       cfg["rTol"], cfg["paranoid"])
+    except CaseTimeout:
+        report("trace-does-not-terminate", "tracePhase did not return within %g s" % LIMIT, {})
+        fe = None
     except AssertionError as ex:
         # "Temperature range negative: decrease dT": documented refusal
         if "decrease dT" in str(ex):
@@ -550,7 +601,11 @@ def run_tc_case(ctx, cfg):
         fe.maxPossibleTemperature[0] = cfg["Wmax"]
     Tc = None
     try:
-        Tc = th.findCriticalTemperature(cfg["dT"], cfg["rTol"], cfg["paranoid"])
+        with time_limit(2 * LIMIT):
+            Tc = th.findCriticalTemperature(cfg["dT"], cfg["rTol"], cfg["paranoid"])
+    except CaseTimeout:
+        report("trace-does-not-terminate", "findCriticalTemperature did not return within "
+               "%g s" % (2 * LIMIT), {})
     except AssertionError as ex:
         if "decrease dT" in str(ex):
             ctx.count("tc_refused_dT", cfg)
@@ -668,6 +723,13 @@ def run(ctx):
                           stdout=subprocess.PIPE, stderr=subprocess.PIPE, text=True)
     # --- direct validation on the real tracer -------------------------------------------
     units = (1.0, 1e-3, 1e3)
+    for k in ctx.known.get("findings", []):
+        if k.get("property") == "C11" and isinstance(k.get("replay"), dict) and \
+                "model" in k["replay"]:
+            try:
+                run_trace_case(ctx, dict(k["replay"]), "known")
+            except Exception as ex:
+                ctx.log("replay of known finding raised", traceback.format_exc())
     cases = q1_cfgs(rng, ctx.n(24, 400), units) + tf_cfgs(rng, ctx.n(24, 400), units)
     for cfg in cases:
         try:
